@@ -48,9 +48,9 @@ LongThorough == <<2000, 2000, 3000, 2500, 2000, 3000>>
 IdlesQuick == <<0, 0, 0, 60>>
 IdlesThorough == <<0, 0, 60, 0>>
 
-K == <<"sB", "iK", "iR", "bA", "bL", "mR", "fR", "bW", "dD", "aL", "cL", "rR">>
+K == <<"sB", "iK", "iR", "bA", "bL", "mR", "fR", "bW", "dD", "aL", "cL", "bH", "rR">>
 ASSUME {K[i] : i \in DOMAIN K} = ConnKinds
-NF == 11
+NF == 12
 Forced == 1 .. NF                       \* index of the gate-forced kinds (everything but rR)
 TP == <<"standard", "netpoll">>
 
